@@ -371,11 +371,13 @@ Lemma do_call_pure2 U order W D caller target value run :
   (forall D1, wf W D1 -> cohp W D1 -> pstep2 U W D1 (run (W, D1))) ->
   pstep2 U W D (do_call order (W, D) caller target value run).
 Proof.
-  intros Hwf Hc Hw Hnd Hcu Htu Hrun. unfold do_call. rewrite !(load_id _ _ _ Hwf).
+  intros Hwf Hc Hw Hnd Hcu Htu Hrun. unfold do_call, do_call_gen. rewrite !(load_id _ _ _ Hwf).
   destruct (negb (value =? 0) && (cbal D caller <? value)).
   { split; [done|]. split; [by apply ext_refl|]. by split. }
   assert (HD0 : (if value =? 0 then D else D) = D) by (by destruct (value =? 0)). rewrite HD0.
   rewrite !(load_id _ _ _ Hwf).
+  destruct (negb false && match objs D !! target with None => true | Some _ => false end && (value =? 0) && negb (is_precompile target)).
+  { split; [done|]. split; [by apply ext_refl|]. by split. }
   set (D2 := match objs D !! target with
              | Some _ => D
              | None => japp (set_obj D target (mkobj 0 ∅ ∅ ∅ false)) (JCreate target)
@@ -426,7 +428,7 @@ Theorem pure_instr2 U : NoDup U -> forall i, pure i = true -> nosd i = true -> c
     pstep2 U W D (exec_instr order o self i (W, D)).
 Proof.
   intros Hnd.
-  induction i as [k v| | |a|b|t v c r body IH|p v c r] using instr_ind'; intros Hp Hns Hcl order o self W D Hw Hself Hwf Hc;
+  induction i as [k v| | |a|b|t v c r body IH|ad v c r sc body|p v c r] using instr_ind'; intros Hp Hns Hcl order o self W D Hw Hself Hwf Hc;
     cbn [exec_instr].
   - split; [done|]. split; [by apply set_state_ext|]. by apply set_state_facts.
   - split; [done|]. split; [by apply add_log_ext|]. by apply add_log_facts.
@@ -447,6 +449,7 @@ Proof.
     + by apply IHx.
     + intros D2 Hwf2 Hc2. by apply IHb.
   - discriminate.
+  - discriminate.
 Qed.
 
 Lemma pure_list2 U order o self W : NoDup U -> world_ok W -> self ∈ U ->
@@ -463,16 +466,17 @@ Proof.
 Qed.
 
 (** * programs without SELFDESTRUCT never mark an object as self-destructed *)
+Definition jplain (e : jentry) : Prop := match e with JSuicide _ _ _ | JReset _ _ => False | _ => True end.
 Definition live (D : sdb) : Prop :=
-  (forall a o, objs D !! a = Some o -> osui o = false) /\ (forall a p pb, ~ In (JSuicide a p pb) (journal D)).
+  (forall a o, objs D !! a = Some o -> osui o = false) /\ (forall e, In e (journal D) -> jplain e).
 
 Lemma live_set_obj D a o : live D -> osui o = false -> live (set_obj D a o).
 Proof.
   intros [Ho Hj] Hs. split; [|exact Hj]. intros b ob. cbn.
   destruct (decide (a = b)) as [->|]; [rewrite lookup_insert; by intros [= <-]|rewrite lookup_insert_ne by done; apply Ho].
 Qed.
-Lemma live_japp D e : live D -> (forall a p pb, e <> JSuicide a p pb) -> live (japp D e).
-Proof. intros [Ho Hj] He. split; [exact Ho|]. intros a p pb [Hin|Hin]; [by eapply He|by eapply Hj]. Qed.
+Lemma live_japp D e : live D -> jplain e -> live (japp D e).
+Proof. intros [Ho Hj] He. split; [exact Ho|]. intros e' [<-|Hin]; [exact He|by apply Hj]. Qed.
 Lemma live_load W D a : live D -> live (load W D a).
 Proof.
   intros Hl. unfold load. destruct (objs D !! a); [done|]. destruct (bool_decide _); [|done]. by apply live_set_obj.
@@ -480,18 +484,18 @@ Qed.
 Lemma live_get_or_new W D a : live D -> live (get_or_new W D a).
 Proof.
   intros Hl. unfold get_or_new. pose proof (live_load W D a Hl) as Hl1. destruct (objs (load W D a) !! a); [done|].
-  apply live_japp; [by apply live_set_obj|]. intros; discriminate.
+  apply live_japp; [by apply live_set_obj|exact I].
 Qed.
 Lemma live_set_bal D a v : live D -> live (set_bal D a v).
 Proof.
   intros Hl. unfold set_bal. destruct (objs D !! a) as [o|] eqn:E; [|done].
-  apply live_set_obj; [apply live_japp; [done|intros; discriminate]|]. cbn. by apply (proj1 Hl a o).
+  apply live_set_obj; [apply live_japp; [done|exact I]|]. cbn. by apply (proj1 Hl a o).
 Qed.
 Lemma live_add_bal W D a amt : live D -> live (add_bal W D a amt).
 Proof. intros Hl. unfold add_bal. destruct (amt =? 0); [by apply live_get_or_new|]. by apply live_set_bal, live_get_or_new. Qed.
 Lemma live_add_log D : live D -> live (add_log D).
 Proof.
-  intros [Ho Hj]. split; [exact Ho|]. intros a p pb. cbn. intros [Hin|Hin]; [discriminate|by eapply Hj].
+  intros [Ho Hj]. split; [exact Ho|]. intros e. cbn. intros [<-|Hin]; [exact I|by apply Hj].
 Qed.
 Lemma live_set_state W D a k v : live D -> live (set_state W D a k v).
 Proof.
@@ -499,31 +503,30 @@ Proof.
   destruct (objs (get_or_new W D a) !! a) as [o|] eqn:E; [|done].
   pose proof (proj1 Hl1 a o E) as Hso.
   destruct (dstor o !! k) as [d|].
-  - destruct (d =? v); [by apply live_set_obj|]. apply live_set_obj; [apply live_japp; [done|intros; discriminate]|done].
+  - destruct (d =? v); [by apply live_set_obj|]. apply live_set_obj; [apply live_japp; [done|exact I]|done].
   - destruct (ostor o !! k) as [c|].
-    + destruct (c =? v); [by apply live_set_obj|]. apply live_set_obj; [apply live_japp; [done|intros; discriminate]|done].
+    + destruct (c =? v); [by apply live_set_obj|]. apply live_set_obj; [apply live_japp; [done|exact I]|done].
     + destruct (zg (store W) (a, k) =? v); [by apply live_set_obj|].
-      apply live_set_obj; [apply live_japp; [done|intros; discriminate]|done].
+      apply live_set_obj; [apply live_japp; [done|exact I]|done].
 Qed.
 Lemma live_undo D e r : live D -> journal D = e :: r -> live (undo (mksdb (objs D) r (dirties D) (logs D)) e).
 Proof.
   intros [Ho Hj] Hjr. rewrite undo_split.
-  assert (Hr : forall a p pb, ~ In (JSuicide a p pb) r).
-  { intros a p pb Hin. apply (Hj a p pb). rewrite Hjr. by right. }
+  assert (Hr : forall e', In e' r -> jplain e').
+  { intros e' Hin. apply Hj. rewrite Hjr. by right. }
+  assert (He : jplain e) by (apply Hj; rewrite Hjr; by left).
   assert (Hjj : journal (undo_dirt (undo_core (mksdb (objs D) r (dirties D) (logs D)) e) e) = r).
   { rewrite <- undo_split, journal_undo. reflexivity. }
-  split; [|intros a p pb; rewrite Hjj; apply Hr].
+  split; [|intros e'; rewrite Hjj; apply Hr].
   assert (Hob : objs (undo_dirt (undo_core (mksdb (objs D) r (dirties D) (logs D)) e) e) =
                 objs (undo_core (mksdb (objs D) r (dirties D) (logs D)) e)).
   { unfold undo_dirt. by destruct (dirtied e). }
-  rewrite Hob. unfold undo_core. destruct e as [a0 p|a0 k p|a0| |a0 p pb]; cbn.
+  rewrite Hob. unfold undo_core. destruct e as [a0 p|a0 k p|a0| |a0 p pb|a0 pv]; cbn; try (by destruct He).
   - destruct (objs D !! a0) as [o0|] eqn:E; cbn; [|exact Ho]. intros b ob.
     destruct (decide (a0 = b)) as [->|]; [rewrite lookup_insert; intros [= <-]; cbn; by apply (Ho b o0)|rewrite lookup_insert_ne by done; apply Ho].
   - destruct (objs D !! a0) as [o0|] eqn:E; cbn; [|exact Ho]. intros b ob.
     destruct (decide (a0 = b)) as [->|]; [rewrite lookup_insert; intros [= <-]; cbn; by apply (Ho b o0)|rewrite lookup_insert_ne by done; apply Ho].
   - intros b ob. destruct (decide (a0 = b)) as [->|]; [by rewrite lookup_delete|rewrite lookup_delete_ne by done; apply Ho].
-  - exact Ho.
-  - exfalso. apply (Hj a0 p pb). rewrite Hjr. by left.
 Qed.
 Lemma live_pop_n n : forall D, live D -> live (pop_n D n).
 Proof.
@@ -538,17 +541,18 @@ Definition lstep (r : st * outcome) : Prop := live (snd (fst r)).
 Lemma do_call_live order W D caller target value run :
   live D -> (forall W1 D1, live D1 -> lstep (run (W1, D1))) -> lstep (do_call order (W, D) caller target value run).
 Proof.
-  intros Hl Hrun. unfold do_call, lstep.
+  intros Hl Hrun. unfold do_call, do_call_gen, lstep.
   destruct (negb (value =? 0) && (cbal (load W D caller) caller <? value)); [cbn; by apply live_load|].
   set (D0 := if value =? 0 then D else load W D caller).
   assert (Hl0 : live D0) by (unfold D0; destruct (value =? 0); [done|by apply live_load]).
+  destruct (negb false && match objs (load W D0 target) !! target with None => true | Some _ => false end && (value =? 0) && negb (is_precompile target)); [exact Hl0|].
   set (D2 := match objs (load W D0 target) !! target with
              | Some _ => load W D0 target
              | None => japp (set_obj (load W D0 target) target (mkobj 0 ∅ ∅ ∅ false)) (JCreate target)
              end).
   assert (Hl2 : live D2).
   { unfold D2. pose proof (live_load W D0 target Hl0) as H1. destruct (objs (load W D0 target) !! target); [done|].
-    apply live_japp; [by apply live_set_obj|intros; discriminate]. }
+    apply live_japp; [by apply live_set_obj|exact I]. }
   assert (Hl3 : live (add_bal W (sub_bal W D2 caller value) target value)) by (unfold sub_bal; by apply live_add_bal, live_add_bal).
   specialize (Hrun W _ Hl3). unfold lstep in Hrun.
   destruct (run (W, add_bal W (sub_bal W D2 caller value) target value)) as [[W4 D4] oc]. cbn in Hrun.
@@ -565,7 +569,7 @@ Qed.
 Theorem nosd_instr_live : forall i, pure i = true -> nosd i = true ->
   forall order o self W D, live D -> lstep (exec_instr order o self i (W, D)).
 Proof.
-  induction i as [k v| | |a|b|t v c r body IH|p v c r] using instr_ind'; intros Hp Hns order o self W D Hl;
+  induction i as [k v| | |a|b|t v c r body IH|ad v c r sc body|p v c r] using instr_ind'; intros Hp Hns order o self W D Hl;
     cbn [exec_instr]; unfold lstep.
   - cbn. by apply live_set_state.
   - cbn. by apply live_add_log.
@@ -581,6 +585,7 @@ Proof.
     specialize (IHx Hpx Hnx order o t W1 D1 Hl1). unfold lstep in IHx.
     destruct (exec_instr order o t x (W1, D1)) as [[W2 D2] oc]. cbn in IHx. destruct oc; [|exact IHx].
     by apply IHb.
+  - discriminate.
   - discriminate.
 Qed.
 Lemma nosd_list_live order o self : forall body, forallb pure body = true -> forallb nosd body = true ->
@@ -690,7 +695,7 @@ Proof.
     + intros a. rewrite Hj. intros [].
   - intros n Hn. unfold jlen in Hn. rewrite Hj in Hn. cbn in Hn. assert (n = 0)%nat as -> by lia.
     unfold revert_to. rewrite Hj. cbn. intros a o Hoa _. by rewrite (Ho a o Hoa).
-  - split; [intros a o Hoa; by rewrite (Ho a o Hoa)|]. intros a p pb. rewrite Hj. intros [].
+  - split; [intros a o Hoa; by rewrite (Ho a o Hoa)|]. intros e. rewrite Hj. intros [].
 Qed.
 
 (** the theorem instantiated: from the saturated clean cache every pure, closed program conserves supply *)
